@@ -374,7 +374,7 @@ void AspifTextOutput::rule(Head_t ht, const AtomSpan& head, Weight_t bound, cons
 	}
 	if (min == max && min > 0) { // weights of 0 (or invalid negative ones) are kept as a sum
 		data_->directives.resize(top);
-		bound = (bound + min-1)/min;
+		bound = static_cast<Weight_t>((static_cast<int64_t>(bound) + min-1)/min); // bound + min may exceed int
 		push(Body_t::Count).push(bound).push(static_cast<uint32_t>(size(lits)));
 		for (const WeightLit_t* it = begin(lits), *end = Potassco::end(lits); it != end; ++it) {
 			push(Potassco::lit(*it));
